@@ -5,12 +5,15 @@ log = ''.join(open(f).read() for f in sys.argv[1:])
 rows = []
 for d in sorted(os.listdir('/verif/seeded')):
     p = f'/verif/seeded/{d}'
+    if not os.path.isdir(p):
+        continue
     m = json.load(open(f'{p}/meta.json'))
     cs = re.findall(r"CHECK seed=%s prop=\S+ rc=(\d+) (\d+) violations;(.*)" % re.escape(p), log)
     if cs:
         c = cs[-1]
         m['current_check_run'] = dict(cmd=f'VFW_REPO=<patched worktree> bin/vcheck run {m["property"]} --tier quick', rc=int(c[0]),
-                                      violated_clauses=', '.join(sorted(set(re.findall(r'(C\d\d\.[\w.]+)', c[2])))), detected=(c[0] == '1'))
+                                      violated_clauses=', '.join(sorted(set(re.findall(r'(C\d\d\.[\w.]+)', c[2])))), detected=(c[0] == '1'),
+                                      note='most of these runs used VFW_EARLY_STOP=1 (stop after the first job that reports a violation): the clause list may be a subset of what a full run reports')
         json.dump(m, open(f'{p}/meta.json', 'w'), indent=1)
     n = open(f'{p}/NOTES.md').read().strip().splitlines()
     title = [x for x in n if x.strip()][0].lstrip('# ').strip()
